@@ -57,6 +57,8 @@ class Gen(object):
         # byValue(min) among the calls (a READ: whatever it answers -- C09
         # says why the answer is not compared -- nothing may change)
         self.p_byvalue = 0.0
+        self.p_fsbytes = 0.04 if (dom.fam == "fs" and kind == "Bucket") \
+            else 0.0
 
     def present(self):
         ks = self.model.skeys()
@@ -144,6 +146,18 @@ class Gen(object):
         rng = self.rng
         if self.p_bad and rng.random() < self.p_bad:
             op = self.bad_write()
+            self.model.apply(op)
+            return op
+        if self.p_fsbytes and rng.random() < self.p_fsbytes:
+            # fs family: the packed form of a Bucket (toBytes / fromBytes)
+            ks = sorted(set(self.keylist(0, 6)))
+            op = [rng.choice(["fsrt", "fsrt", "fsload"]),
+                  [[k, self.val()] for k in ks]]
+            if op[0] == "fsrt" and rng.random() < 0.5:
+                # enough new entries to outgrow whatever was allocated
+                free = [k for k in range(self.dom.nkeys)
+                        if k not in self.model.d]
+                op[1] = [[k, self.val()] for k in free]
             self.model.apply(op)
             return op
         if self.p_byvalue and self.mapping and rng.random() < self.p_byvalue:
